@@ -116,6 +116,15 @@ def handle (j : Json) : Except String Json := do
   | "judge" =>
     let entries ← (← getArr j "log").toList.mapM entryOfJson
     return Json.mkObj (judgeJson entries.reverse)
+  | "filter" =>
+    -- the full GetTrials filter on a given table
+    let env ← (← getArr j "env").toList.mapM trialOfJson
+    let optNat := fun (k : String) => match j.getObjValAs? Nat k with | .ok n => some n | .error _ => none
+    let ids : Option (List Nat) := match j.getObjValAs? (Array Nat) "ids" with | .ok a => some a.toList | .error _ => none
+    let st : Option Status ← match j.getObjValAs? String "st" with
+      | .ok s => (do return some (← statusOfString s))
+      | .error _ => pure none
+    return Json.mkObj [("ids", toJson ((getTrialsF env ids (optNat "min") (optNat "max") st).map (·.id)).toArray)]
   | "witness" =>
     let n ← getStr j "name"
     match n with
